@@ -137,13 +137,29 @@ func TestVerifC15(t *testing.T) {
 		}
 	}
 	maskCfgs := []c15Cfg{}
-	for _, v4 := range []int{0, 16, 24, 32} {
-		for _, v6 := range []int{0, 48, 64} {
+	for _, v4 := range []int{0, 16, 21, 24, 25, 27, 32} {
+		for _, v6 := range []int{0, 48, 50, 53, 64} {
 			maskCfgs = append(maskCfgs, c15Cfg{1, 1, v4, v6})
 		}
 	}
+	// addresses that differ from a base address in exactly one bit around the mask boundaries
+	var maskAddrs []netip.Addr
+	base4 := netip.MustParseAddr("198.51.100.0").As4()
+	maskAddrs = append(maskAddrs, netip.AddrFrom4(base4), netip.AddrFrom16(netip.AddrFrom4(base4).As16()))
+	for _, bit := range []int{14, 15, 16, 20, 21, 22, 23, 24, 25, 26, 27, 31} { // bit index from the left, 0-based
+		b := base4
+		b[bit/8] ^= 0x80 >> (bit % 8)
+		maskAddrs = append(maskAddrs, netip.AddrFrom4(b))
+	}
+	base6 := netip.MustParseAddr("2001:db8:1::").As16()
+	maskAddrs = append(maskAddrs, netip.AddrFrom16(base6))
+	for _, bit := range []int{46, 47, 48, 49, 50, 52, 53, 63, 64, 127} {
+		b := base6
+		b[bit/8] ^= 0x80 >> (bit % 8)
+		maskAddrs = append(maskAddrs, netip.AddrFrom16(b))
+	}
 	rep.Rule = fmt.Sprintf("E3 (virtual clock, real gc ticker): (buckets) configs limit{1,20} x burst{omitted,1,5,200} with default masks x all arrival sequences of length <=%d over 3 addresses in 2 subnets x delay {0, 1/limit, 1s, 61s, 121s} x cost {1,3,15,burst}; "+
-		"(masks) v4_mask {omitted,16,24,32} x v6_mask {omitted,48,64} with limit=burst=1 x all sequences of length <=3 over 8 addresses (v4, v4-mapped, v6; same /24, same /16, same /48, same /64) at one instant; "+
+		"(masks) v4_mask {omitted,16,21,24,25,27,32} x v6_mask {omitted,48,50,53,64} with limit=burst=1 x all ordered pairs over 26 addresses (a v4 base, its v4-mapped form and a v6 base, each with one bit flipped at positions around every mask boundary) at one instant; "+
 		"oracle: over every window the admitted cost per property-defined subnet <= burst + rate*window; a request within the budget left by its own subnet's traffic is never refused", maxLen)
 	sh, nsh := report.Shard()
 	run := func(tag string, cfg c15Cfg, addrs []netip.Addr, ml int, delays bool) {
@@ -163,9 +179,13 @@ func TestVerifC15(t *testing.T) {
 			})
 			return
 		}
-		st := choice.Explore(opt, func(c *choice.Ctx) bool {
-			synctest.Test(t, func(t *testing.T) { c15Run(c, rep, cfg, addrs, ml, tag) })
-			return rep.NViolations() < 30
+		var st choice.Stats
+		// one bubble for the whole exploration (the early abort of another worker's subtree unwinds through Explore)
+		synctest.Test(t, func(t *testing.T) {
+			st = choice.Explore(opt, func(c *choice.Ctx) bool {
+				c15Run(c, rep, cfg, addrs, ml, tag)
+				return rep.NViolations() < 30
+			})
 		})
 		rep.AddTransitions(st.ChoicePoints)
 		if st.Capped {
@@ -179,7 +199,7 @@ func TestVerifC15(t *testing.T) {
 	c15Delays = []time.Duration{0}
 	c15Costs = []int{1}
 	for i, cfg := range maskCfgs {
-		run(fmt.Sprintf("mask%d", i), cfg, c15Addrs, 3, false)
+		run(fmt.Sprintf("mask%d", i), cfg, maskAddrs, 2, false)
 	}
 	c15Delays = saved
 	rep.Sample(map[string]any{"config": "limit=1 burst=200 masks omitted", "arrivals": "+0 198.51.100.7 cost15 ... ; +121s 198.51.100.7 cost15", "oracle": "admitted cost in any window <= 200 + 1*window"})
